@@ -42,8 +42,8 @@ TABLE = [
     (r'^SELECT filename FROM Cache ORDER BY (store_time|access_time|access_count) LIMIT \?$', 'selPolicy'),
     (r'^DELETE FROM Cache WHERE rowid IN \(SELECT rowid FROM Cache ORDER BY (store_time|access_time|access_count) LIMIT \?\)$', 'delPolicy'),
     (r'^PRAGMA page_count$', 'pageCount'),
-    (r'^SELECT key FROM Cache WHERE \? < key AND key < \? AND raw = \? ORDER BY key (ASC|DESC) LIMIT 1$', 'selQueueEnd'),
-    (r'^SELECT rowid, key, expire_time, tag, mode, filename, value FROM Cache WHERE \? < key AND key < \? AND raw = 1 ORDER BY key (ASC|DESC) LIMIT 1$', 'selQueueHead'),
+    (r'^SELECT key FROM Cache WHERE \? < key AND key < \? AND raw = \?( AND length\(key\) = [0-9]+)? ORDER BY key (ASC|DESC) LIMIT 1$', 'selQueueEnd'),
+    (r'^SELECT rowid, key, expire_time, tag, mode, filename, value FROM Cache WHERE \? < key AND key < \? AND raw = 1( AND length\(key\) = [0-9]+)? ORDER BY key (ASC|DESC) LIMIT 1$', 'selQueueHead'),
     (r'^SELECT rowid, key, raw, expire_time, tag, mode, filename, value FROM Cache ORDER BY rowid (ASC|DESC) LIMIT 1$', 'selEdge'),
     (r'^SELECT rowid, filename FROM Cache WHERE tag = \? AND rowid > \? ORDER BY rowid LIMIT \?$', 'pageTag'),
     (r'^SELECT rowid, expire_time, filename FROM Cache WHERE \? <= expire_time AND expire_time < \? ORDER BY expire_time LIMIT \?$', 'pageExpire'),
